@@ -4,6 +4,7 @@ import (
 	"fmt"
 	"strings"
 	"sync"
+	"unicode/utf8"
 
 	"verif/corp"
 	"verif/ev"
@@ -169,6 +170,9 @@ func init() {
 			}
 			terms, lits, _ := terminalsOf(c.text)
 			it := corp.NewTextItem("Host", c.text, "-a")
+			// names travel to the driver as JSON: those that are not valid UTF-8 would arrive changed and are left to
+			// the table-level comparison above
+			terms, lits = validUTF8Only(terms), validUTF8Only(lits)
 			it.Extra = map[string]any{"terminals": terms, "strlits": lits, "name": c.name}
 			items = append(items, it)
 		}
@@ -182,4 +186,14 @@ func init() {
 		r.Set("rule", "(A) hostile spellings (token/production names, string literals over all ASCII punctuation and awkward sequences), seeds, S2, L4, S1 and ErrFam picks x {default, -no_lexer, -zip, -v, debug flags}: token.go read back: INVALID 0, end-of-input 1, no duplicates, idMap exactly the inverse of typeMap as Go strings, exactly the grammar's terminals numbered consecutively (terminals derived by the harness's own tokenizer); the lexer's Accept numbers and the parser's columns are addressed through these names by the C01/C02/C05 products; (B) compiled: Type(Id(i)) = i, Id(Type(n)) = n, unknown names -> INVALID, scanning each string-literal terminal's lexeme yields its number; distinct = (case, flags) and terminal names looked up")
 		return r.Finish(nil)
 	}
+}
+
+func validUTF8Only(in []string) []string {
+	var out []string
+	for _, s := range in {
+		if utf8.ValidString(s) {
+			out = append(out, s)
+		}
+	}
+	return out
 }
